@@ -1,11 +1,23 @@
 #!/bin/bash
-# run_seed.sh <patch.diff> <tier> <prop> [prop...] : apply a seeded change to /repo, run the checks, undo it.
+# run_seed.sh <patch.diff> <tier> <prop> [prop...] : run the checks against a seeded change.
+# Default: a scratch git worktree of /repo (outside /repo and /verif) gets the patch, the checks run against it
+# (VERIF_REPO) writing evidence/replays to a scratch dir (VERIF_OUT), and the worktree is removed afterwards, so the
+# real /repo is never touched and clean runs can go on in parallel.  With INPLACE=1 the patch is applied to /repo
+# itself (git -C /repo apply) and undone afterwards (git -C /repo checkout -- .).
 P=$1; T=$2; shift 2
-[ -z "$(git -C /repo status --short --untracked-files=no)" ] || { echo "/repo not clean"; exit 3; }
-git -C /repo apply $P || exit 3
-trap 'git -C /repo checkout -- .' EXIT
+if [ -n "$INPLACE" ]; then
+  [ -z "$(git -C /repo status --short --untracked-files=no)" ] || { echo "/repo not clean"; exit 3; }
+  git -C /repo apply $P || exit 3
+  trap 'git -C /repo checkout -- .' EXIT
+  R=/repo; O=/verif
+else
+  R=$(mktemp -d /tmp/seedrepo-XXXX); O=$(mktemp -d /tmp/seedout-XXXX)
+  git -C /repo worktree add --detach $R HEAD >/dev/null 2>&1 || { echo "worktree failed"; exit 3; }
+  git -C $R apply $P || { git -C /repo worktree remove --force $R; exit 3; }
+  trap 'git -C /repo worktree remove --force $R; rm -rf $O' EXIT
+fi
 for p in "$@"; do
-  out=$(cd /verif && VERIF_NO_EVIDENCE=1 ./check $p --tier $T 2>&1); rc=$?
-  echo "== $p rc=$rc: $(echo "$out" | grep -E '^(VIOLATION|HARNESS|INCONCL)' | head -3 | tr '\n' ' ')"
+  out=$(cd /verif && VERIF_REPO=$R VERIF_OUT=$O ./check $p --tier $T 2>&1); rc=$?
+  echo "== $p rc=$rc: $(echo "$out" | grep -E '^(VIOLATION|HARNESS|INCONC)' | head -3 | sed "s#$O#<out>#g" | tr '\n' ' ')"
   echo "$out" | grep -E "^  obligation" | head -3
 done
